@@ -744,7 +744,8 @@ func ExpandAndReturnIndexNames(indexNameIn string, orgid int64, isElastic bool, 
 				if isIndexExcluded(indexName) {
 					continue
 				}
-				regexStr := "^" + strings.ReplaceAll(indexName, "*", `.*`) + "$"
+				// only "*" is a wildcard; every other character of the expression stands for itself
+				regexStr := "^" + strings.ReplaceAll(regexp.QuoteMeta(indexName), `\*`, `.*`) + "$"
 				indexRegExp, err := regexp.Compile(regexStr)
 				if err != nil {
 					log.Infof("ExpandAndReturnIndexNames: Error compiling regexStr=%v, Error=%v", regexStr, err)
